@@ -224,6 +224,25 @@ func (e *Engine) immutableKey(key string) bool {
 // allocated in the storing function). Returns one site obligation per (type, field).
 func (e *Engine) moduleScan() []*Obligation {
 	var out []*Obligation
+	for _, fc := range e.cs.Funcs {
+		if w, ok := fc.Flags["stdout_writer"]; ok {
+			var tags []string
+			for _, t := range w {
+				if strings.HasPrefix(t, "C") {
+					tags = append(tags, t)
+				}
+			}
+			var allowed []string
+			for _, f2 := range e.cs.Funcs {
+				if _, ok := f2.Flags["stdout_writer"]; ok {
+					allowed = append(allowed, f2.Name)
+				}
+			}
+			sort.Strings(allowed)
+			out = append(out, e.stdoutWriterScan(allowed, tags))
+			break
+		}
+	}
 	var tnames []string
 	for n := range e.cs.Types {
 		tnames = append(tnames, n)
@@ -449,4 +468,54 @@ func (e *Engine) onceProtectedClose(ins ssa.Instruction, chv ssa.Value) (typeNam
 		}
 	}
 	return
+}
+
+// stdoutWriterScan: the instructions of the module that can write to the process's real
+// stdout (fmt.Print*, fmt.Fprint* with os.Stdout, methods on os.Stdout, os.NewFile(1, ...))
+// occur only in the allowed functions. One obligation for the whole module.
+func (e *Engine) stdoutWriterScan(allowed []string, tags []string) *Obligation {
+	ok := map[string]bool{}
+	for _, a := range allowed {
+		ok[a] = true
+	}
+	var bad []string
+	for name, fn := range e.funcs {
+		base := name
+		if i := strings.Index(base, "$"); i >= 0 {
+			base = base[:i]
+		}
+		if ok[name] || ok[base] {
+			continue
+		}
+		for _, b := range fn.Blocks {
+			for _, in := range b.Instrs {
+				switch x := in.(type) {
+				case ssa.CallInstruction:
+					sc := x.Common().StaticCallee()
+					if sc == nil {
+						continue
+					}
+					n := sc.String()
+					switch n {
+					case "fmt.Print", "fmt.Println", "fmt.Printf":
+						bad = append(bad, name+": "+n+" ("+e.pos(in.Pos())+")")
+					case "os.NewFile":
+						bad = append(bad, name+": "+n+" ("+e.pos(in.Pos())+")")
+					}
+				case *ssa.UnOp:
+					if g, isG := x.X.(*ssa.Global); isG && g.Pkg.Pkg.Path() == "os" && g.Name() == "Stdout" {
+						bad = append(bad, name+": reads os.Stdout ("+e.pos(in.Pos())+")")
+					}
+				}
+			}
+		}
+	}
+	sort.Strings(bad)
+	goal, st := "true", "unsat"
+	text := "only " + strings.Join(allowed, ", ") + " can write to the process's stdout"
+	if len(bad) > 0 {
+		goal, st = "false", "sat"
+		text += "; other sites: " + strings.Join(bad, "; ")
+	}
+	return &Obligation{Name: "module/stdout-writers", Kind: "frame", Func: "module", Tags: tags, Text: text, Goal: goal, Pc: "true", Site: true, Result: &SolverResult{Status: st, Solver: "ssa-scan"}}
 }
